@@ -159,7 +159,7 @@ def extracted_meta_summary():
         return {"file": "coq/gen/extracted_meta.json", "error": "missing"}
     kinds = {}
     for v in loc.values():
-        k = v.get("pattern", "?").split(":", 1)[0]
+        k = (v.get("pattern") or "?").split(":", 1)[0]      # an item that fell back to its baseline has pattern None
         kinds[k] = kinds.get(k, 0) + 1
     return {"file": "coq/gen/extracted_meta.json", "items": len(loc), "by_pattern_kind": kinds}
 
